@@ -161,3 +161,24 @@ pub unsafe extern "C" fn clock_gettime(clk: libc::clockid_t, ts: *mut libc::time
     }
     r
 }
+
+/// Entropy seam: std seeds every thread's `RandomState` (iteration order of HashMap / HashSet) from
+/// `getrandom`. Inside a run the bytes come from the run's own seed, so that an order that leaks from a
+/// hash table into an output is part of the replayable execution - and differs between runs with
+/// different schedule seeds, as it differs between processes in real life.
+#[no_mangle]
+pub unsafe extern "C" fn getrandom(buf: *mut c_void, buflen: size_t, flags: libc::c_uint) -> ssize_t {
+    if sio::is_active() && !buf.is_null() {
+        if let Some(mut x) = sio::entropy_next() {
+            let out = std::slice::from_raw_parts_mut(buf as *mut u8, buflen);
+            for b in out.iter_mut() {
+                x ^= x << 13;
+                x ^= x >> 7;
+                x ^= x << 17;
+                *b = (x >> 24) as u8;
+            }
+            return buflen as ssize_t;
+        }
+    }
+    libc::syscall(libc::SYS_getrandom, buf, buflen, flags) as ssize_t
+}
